@@ -140,7 +140,7 @@ PROPS = {
     },
     'C12': {
         'props': ['theories/Props/C12.v'], 'deps': VERIFY_DEPS + ['theories/Theory/WriterFacts.v'] + ['theories/Model/Server.v', 'gen/Handlers.v'],
-        'streams': ['l3-validate', 'l3-write', 'l6-http'],
+        'streams': ['l3-validate', 'l3-write', 'l6-http', 'l5-props'],
         'trusted_base': GOV_TB + ['Spec/Rules.v option_rules'],
         'assumptions': COMMON_ASSUME + ['route agreement (reader presets, JSON, HTTP query) is covered by the streams of C04/C14/C17, not by these theorems'],
     },
